@@ -51,7 +51,8 @@ def _elem_shard(work):
                 if now != S.denote(sp):
                     v = "a value below the arguments was mutated through an alias of argument %d" % i
                     break
-        if v and (key in S.WHOLE_STACK or (key in S.RUNS_PROGRAM_TEXT and isinstance(specs[-1], str))):
+        prints_function = key in (",", "…", "₴", "¨,", "¨…") and specs and S.kind_of(specs[-1]) == "fn"   # printing a function CALLS it
+        if v and (key in S.WHOLE_STACK or prints_function or (key in S.RUNS_PROGRAM_TEXT and isinstance(specs[-1], str))):
             # documented whole-stack operations may move/remove prefix entries but must not corrupt their values
             if o.prefix != o.prefix_snapshot:
                 v = "whole-stack operation mutated a value"
@@ -175,7 +176,7 @@ def run(tier, seed):
     rep.sample({"element": "+", "stack": "prefix + [3, 'ab']"})
     rep.sample({"element": "Ȧ", "stack": "prefix + [[1,2,3], 0, 'ab']"})
     rep.sample({"program": "v+", "stack": "prefix + [[1,2,3], 3, 'ab']"})
-    rep.assumptions = ["documented whole-stack operations %s are exempt from the depth oracle" % sorted(S.WHOLE_STACK),
+    rep.assumptions = ["documented whole-stack operations %s are exempt from the depth oracle; so are Ė/† on program text and printing a bare function value (both CALL, i.e. run code on the stack)" % sorted(S.WHOLE_STACK),
                        "random elements run with random.seed(0)"]
     return rep
 
